@@ -1,6 +1,7 @@
 package props
 
 import (
+	"strings"
 	"fmt"
 	"math/rand"
 
@@ -377,6 +378,66 @@ func c08Faults() []fault {
 		it["w"] = val.Num("8")
 		return adapt.Op{Kind: adapt.OpBatchWrite, Batch: []adapt.BatchEntry{{Table: t, Put: ixItem("b2", "1", "x", "1", 1)}, {Table: t, Put: it}}}
 	})
+	// 13b an update whose actions change CONTAINERS of the stored item (remove a set member that is not the last
+	// one, add one, drop a list element, set a map member, append to a list) and which is rejected only AFTER the
+	// expression was evaluated - by the key or index-key validation: sets, lists and maps of the stored item are as
+	// they were
+	rich := func(p val.Item) val.Item {
+		it := p.Clone()
+		it["tags"] = val.SS("a", "b", "c", "d")
+		it["nums"] = val.NS("1", "2", "3")
+		it["bins"] = val.BS("x", "y", "z")
+		it["lst"] = val.List(val.Str("l0"), val.Str("l1"), val.List(val.Num("7")), val.SS("p", "q"))
+		it["mp"] = val.Map(map[string]val.V{"k": val.Str("v"), "inner": val.Map(map[string]val.V{"s": val.SS("m", "n")}), "li": val.List(val.Num("1"), val.Num("2"))})
+		return it
+	}
+	containerActs := []struct{ name, expr string }{
+		{"delete-first-set-member", "DELETE tags :ta"},
+		{"delete-middle-set-member", "DELETE tags :tb"},
+		{"delete-number-set-member", "DELETE nums :n1"},
+		{"delete-binary-set-member", "DELETE bins :bx"},
+		{"add-set-member", "ADD tags :tz"},
+		{"set-smaller-set", "SET tags = :tsmall"},
+		{"remove-first-list-element", "REMOVE lst[0]"},
+		{"remove-two-list-elements", "REMOVE lst[1], lst[3]"},
+		{"set-list-element", "SET lst[1] = :s"},
+		{"set-nested-list-element", "SET lst[2][0] = :s"},
+		{"append-to-list", "SET lst = list_append(lst, :l)"},
+		{"set-map-member", "SET mp.k = :s"},
+		{"remove-map-member", "REMOVE mp.inner"},
+		{"set-nested-map-list-element", "SET mp.li[0] = :s"},
+		{"several-containers", "SET mp.k = :s, lst[0] = :s REMOVE lst[1] ADD nums :n9 DELETE tags :tb"},
+	}
+	rejections := []struct{ name, clause, kw string }{
+		{"wrong-typed-index-key", "g = :num", "SET"},
+		{"key-attribute-removed", "r", "REMOVE"},
+		{"key-attribute-retyped", "h = :num", "SET"},
+		{"wrong-typed-index-sort-key", "s = :lst", "SET"},
+	}
+	cvals := val.Item{":ta": val.SS("a"), ":tb": val.SS("b"), ":n1": val.NS("1"), ":n9": val.NS("9"), ":bx": val.BS("x"), ":tz": val.SS("z"), ":tsmall": val.SS("b", "c"), ":s": val.Str("changed"), ":l": val.List(val.Str("tail")), ":num": val.Num("7"), ":lst": val.List(val.Str("x"))}
+	for _, ca := range containerActs {
+		for _, rj := range rejections {
+			ca, rj := ca, rj
+			fs = append(fs, fault{id: "containers-changed-then-rejected/" + ca.name + "/" + rj.name, stateSetup: true, mk: func(r *rand.Rand, t string, p, a val.Item) []adapt.Op {
+				// merge the rejecting clause into the expression (same keyword joins the existing clause)
+				expr := ca.expr
+				if i := strings.Index(expr, rj.kw+" "); i >= 0 {
+					expr = expr[:i+len(rj.kw)+1] + rj.clause + ", " + expr[i+len(rj.kw)+1:]
+				} else if r.Intn(2) == 0 {
+					expr = expr + " " + rj.kw + " " + rj.clause
+				} else {
+					expr = rj.kw + " " + rj.clause + " " + expr
+				}
+				vals := val.Item{}
+				for _, tk := range tokenize(expr) {
+					if v, ok := cvals[tk]; ok {
+						vals[tk] = v
+					}
+				}
+				return []adapt.Op{{Kind: adapt.OpPut, Table: t, Item: rich(p)}, rawUpdate(t, k(p), expr, nil, vals)}
+			}})
+		}
+	}
 	// 14 requests that exceed one of DynamoDB's documented size limits (partition-key value > 2048 bytes, sort-key
 	// value > 1024 bytes - for the table and for every index -, nesting deeper than 32 levels, a number of more
 	// than 38 significant digits, an expression longer than 4 KB, an attribute name longer than 255 bytes for a
